@@ -112,7 +112,22 @@ func (w *World) VerifyRefinement(implKey string) (*VC, error) {
 	// shared parameter symbols, bound positionally
 	sig := fn.Signature
 	var tnames []string
-	if named, err := w.resolveType(target, fc.Pkg); err == nil {
+	if k := strings.Index(target, "."); k > 0 {
+		// interface method: receiver first
+		if it, err := w.resolveType(target[:k], fc.Pkg); err == nil {
+			if iface, ok := it.Underlying().(*types.Interface); ok {
+				for i := 0; i < iface.NumMethods(); i++ {
+					if m := iface.Method(i); m.Name() == target[k+1:] {
+						tnames = append(tnames, "recv")
+						ms := m.Type().(*types.Signature)
+						for j := 0; j < ms.Params().Len(); j++ {
+							tnames = append(tnames, ms.Params().At(j).Name())
+						}
+					}
+				}
+			}
+		}
+	} else if named, err := w.resolveType(target, fc.Pkg); err == nil {
 		if s, ok := named.Underlying().(*types.Signature); ok {
 			for i := 0; i < s.Params().Len(); i++ {
 				tnames = append(tnames, s.Params().At(i).Name())
@@ -219,10 +234,22 @@ func (w *World) VerifyRefinement(implKey string) (*VC, error) {
 			allowed := map[string]bool{}
 			for _, a := range tc.Assigns {
 				allowed[a] = true
+				for _, k := range w.assignKeys(a, tgtPre) {
+					allowed["heap "+k] = true
+				}
 			}
 			for _, a := range fc.Assigns {
-				if !allowed[a] && !allowed["everything"] {
+				if allowed[a] || allowed["everything"] {
+					continue
+				}
+				ks := w.assignKeys(a, implPre)
+				if len(ks) == 0 {
 					ok = false
+				}
+				for _, k := range ks {
+					if !allowed["heap "+k] {
+						ok = false
+					}
 				}
 			}
 		}
@@ -234,4 +261,74 @@ func (w *World) VerifyRefinement(implKey string) (*VC, error) {
 	}
 	_ = strings.TrimSpace
 	return vc, nil
+}
+
+// assignKeys: the heap keys an assigns entry may touch (over-approximation).
+func (w *World) assignKeys(a string, env *Env) []string {
+	switch {
+	case a == "everything":
+		return nil
+	case strings.HasPrefix(a, "heap "):
+		return []string{strings.TrimSpace(a[5:])}
+	case strings.HasSuffix(a, "[*]"):
+		e, err := parseExpr(strings.TrimSuffix(a, "[*]"))
+		if err != nil {
+			return nil
+		}
+		tv, err := env.Compile(e)
+		if err != nil || tv.T == nil || tv.T.Sort != SSlice {
+			return nil
+		}
+		return []string{w.elemHeap(types.Unalias(tv.Ty).Underlying().(*types.Slice).Elem())}
+	case strings.HasPrefix(a, "*"):
+		e, err := parseExpr(a[1:])
+		if err != nil {
+			return nil
+		}
+		tv, err := env.Compile(e)
+		if err != nil {
+			return nil
+		}
+		if pt, ok := types.Unalias(tv.Ty).Underlying().(*types.Pointer); ok {
+			return []string{w.cellHeap(pt.Elem())}
+		}
+		return nil
+	}
+	k := strings.LastIndex(a, ".")
+	if k < 0 {
+		return nil
+	}
+	e, err := parseExpr(a[:k])
+	if err != nil {
+		return nil
+	}
+	tv, err := env.Compile(e)
+	if err != nil {
+		return nil
+	}
+	pt, ok := types.Unalias(tv.Ty).Underlying().(*types.Pointer)
+	if !ok {
+		return nil
+	}
+	st, ok := w.repoStruct(pt.Elem())
+	if !ok {
+		return nil
+	}
+	var keys []string
+	var collect func(prefix string, s *types.Struct, only string)
+	collect = func(prefix string, s *types.Struct, only string) {
+		for i := 0; i < s.NumFields(); i++ {
+			f := s.Field(i)
+			if only != "*" && f.Name() != only {
+				continue
+			}
+			if sub, ok := w.repoStruct(f.Type()); ok {
+				collect(prefix+"."+f.Name(), sub, "*")
+			} else {
+				keys = append(keys, w.fieldHeapP(prefix, s, i))
+			}
+		}
+	}
+	collect(structPrefix(pt.Elem()), st, a[k+1:])
+	return keys
 }
